@@ -774,7 +774,14 @@ impl Session {
             let id = self.ident(p, e);
             let sync = er.get::<SyncEntity>().map(|s| self.h(&s.uuid)).unwrap_or("-".into());
             let parent = er.get::<Parent>().map(|q| self.ident(p, q.get())).unwrap_or("-".into());
-            let children = er.get::<Children>().map(|c| c.iter().map(|x| self.ident(p, *x)).collect::<Vec<_>>().join(",")).unwrap_or("-".into());
+            let children = er
+                .get::<Children>()
+                .map(|c| {
+                    let mut v = c.iter().map(|x| self.ident(p, *x)).collect::<Vec<_>>();
+                    v.sort();
+                    v.join(",")
+                })
+                .unwrap_or("-".into());
             let mut comps = read_values(&er);
             if let Some(sm) = er.get::<SkinnedMesh>() {
                 let joints: Vec<String> = sm.joints.iter().map(|j| self.ident(p, *j)).collect();
